@@ -110,14 +110,34 @@ func corpus() []corpusCase {
 			dyn("c", "o_mix", "each", []string{"«each».key"}, at("p", "«each».value"))}},
 	}
 	// appended last so that the indices of the cases above stay what they were
-	return append(append(cs, collideCorpus()...), partialCorpus()...)
+	return append(append(append(cs, collideCorpus()...), partialCorpus()...), multiCorpus()...)
 }
 
 // ---- one case ---------------------------------------------------------------------------------------------
 
 var hdrRe = regexp.MustCompile(`^# c18 seed=(\d+) case=(c?)(\d+)`)
 
+// caseFor: the case, with the multi-step histories the direct oracle runs on it (drawn from a
+// stream of their own, so that the cases themselves are what they were without them; the
+// cases of the multi-step stream bring theirs)
 func caseFor(seed uint64, corp bool, idx int) *genCase {
+	c := caseFor0(seed, corp, idx)
+	if c.Plans == nil {
+		off := 0
+		if corp {
+			off = 5000
+		}
+		rp := hv.NewRng(seed, uint64(220000+off+idx))
+		if strings.HasPrefix(c.Note, "multi-step:") {
+			c.Plans, c.Multi = positionalPlans(c.Spec, rp), true
+		} else {
+			c.Plans = makePlans(c.Spec, rp, 0.3)
+		}
+	}
+	return c
+}
+
+func caseFor0(seed uint64, corp bool, idx int) *genCase {
 	r := hv.NewRng(seed, uint64(180000+idx))
 	if corp {
 		cc := corpus()[idx]
@@ -158,6 +178,10 @@ func caseFor(seed uint64, corp bool, idx int) *genCase {
 	if rp := hv.NewRng(seed, uint64(200000+idx)); rp.Chance(0.10) {
 		return generatePartial(rp)
 	}
+	// the multi-step stream (multistep.go): 0.81 * 0.26 = 21 % of the cases
+	if rm := hv.NewRng(seed, uint64(210000+idx)); rm.Chance(0.26) {
+		return generateMulti(rm)
+	}
 	return generate(r)
 }
 
@@ -187,13 +211,20 @@ func (rn *runner) one(seed uint64, corp bool, idx int) {
 	}
 	// ---- observed behaviour of the real code, as a Coq case ----
 	var obs *obsTree
-	var twos []string
+	var twos, multis []string
 	info := &hv.ValInfo{}
 	var panicked any
 	func() {
 		defer func() { panicked = recover() }()
 		expanded := dynblock.Expand(f.Body, c.ECtx)
 		obs = observe(expanded, c.Spec, c.DCtx)
+		if c.Multi {
+			// the histories of the multi-step stream, each on a fresh expanded body
+			for _, pl := range c.Plans {
+				multis = append(multis, "("+pl.coq()+",\n  "+observeM(dynblock.Expand(f.Body, c.ECtx), pl, c.DCtx).coq(info)+")")
+			}
+			return
+		}
 		for _, b := range obs.Blocks {
 			bd := c.Spec.block(b.Type)
 			if bd == nil || bd.Kind == kAttrs {
@@ -218,7 +249,7 @@ func (rn *runner) one(seed uint64, corp bool, idx int) {
 		mode = 2
 		rep.Hist("mode:skipped(outside value universe)")
 	}
-	rn.cf.Add(fmt.Sprintf("mkXCase %s\n  %s\n  %s\n  %s\n  %d\n  %s\n  %s\n  %s", c.Spec.coq(), body, ectx, dctx, mode, obsS, hv.CoqList(twos), coqReportedVars(f.Body, c.Spec.spec())))
+	rn.cf.Add(fmt.Sprintf("mkXCase %s\n  %s\n  %s\n  %s\n  %d\n  %s\n  %s\n  %s\n  %s", c.Spec.coq(), body, ectx, dctx, mode, obsS, hv.CoqList(twos), coqReportedVars(f.Body, c.Spec.spec()), hv.CoqList(multis)))
 	rep.Idx(input)
 	nblocks := strings.Count(obs.shape(false), `"`) // rough: labelled blocks
 	_ = nblocks
@@ -254,7 +285,7 @@ func (rn *runner) one(seed uint64, corp bool, idx int) {
 
 func run(cfg *hv.RunCfg) error {
 	rep := hv.NewReport("C18", cfg.Seed)
-	rep.Rule = "per case: a hcldec specification tree (1-3 levels; BlockList/Set/Map/Single/Tuple/Object/Attrs kinds, 0-2 labels), an expansion context with list/set/map/object/tuple collections of sizes 0-3 incl. nested ones, unknown, marked, null and non-iterable values (1-2 frames), a decoding context (same / child / separate), and a body mixing static and dynamic blocks (nesting 1-3, default and custom iterators incl. shadowing, labels computed from the iterator, content referring to outer iterators, static blocks inside content); 10% structurally mutated (malformed dynamic blocks, unrequested types); 10% of the cases from the partially-unknown-for_each stream (known list/tuple/set/map/object collections of primitives, objects and lists with unknown, refined-unknown or marked-unknown values at different depths, also marked as a whole or known by a length refinement, next to wholly unknown refined ones; used in labels, attributes and nested for_each); non-trivial = the body contains a dynamic block; distinct by SHA-256 of (text, contexts)"
+	rep.Rule = "per case: a hcldec specification tree (1-3 levels; BlockList/Set/Map/Single/Tuple/Object/Attrs kinds, 0-2 labels), an expansion context with list/set/map/object/tuple collections of sizes 0-3 incl. nested ones, unknown, marked, null and non-iterable values (1-2 frames), a decoding context (same / child / separate), and a body mixing static and dynamic blocks (nesting 1-3, default and custom iterators incl. shadowing, labels computed from the iterator, content referring to outer iterators, static blocks inside content); 10% structurally mutated (malformed dynamic blocks, unrequested types); 10% of the cases from the partially-unknown-for_each stream (known list/tuple/set/map/object collections of primitives, objects and lists with unknown, refined-unknown or marked-unknown values at different depths, also marked as a whole or known by a length refinement, next to wholly unknown refined ones; used in labels, attributes and nested for_each); 21% of the cases from the multi-step stream (attribute names and block types from ONE pool of four at every level, so that nested names equal names of the outer levels; the top-level names split into 2-3 parts, read part after part with PartialContent / hcldec.PartialDecode over the chain of remaining bodies and finished with Content / Decode or partially, in both orders; nested bodies in one step or again in two); the multi-step oracle also runs on every case of the other streams; non-trivial = the body contains a dynamic block; distinct by SHA-256 of (text, contexts)"
 	cf := &hv.CaseFile{Dir: cfg.Out, Name: "c18cases",
 		Imports: "From Coq Require Import QArith String.\nFrom HclV Require Import Base.Prelude Cty.Values Cty.Convert Cty.Ops Eval.Impl Eval.Funcs Dyn.Expand Dyn.Unroll Dyn.ExpandCheck.",
 		Ctype:   "xcase", Checker: "check_expand_cases",
